@@ -561,8 +561,13 @@ def write_evidence(pid, tier, seed, mod, per, total, wall, exhaustive, viols, pr
         ),
         assumptions=list(mod.ASSUMPTIONS),
     )
-    os.makedirs(os.path.join(VERIF, 'evidence'), exist_ok=True)
-    with open(os.path.join(VERIF, 'evidence', '%s.json' % pid), 'w') as f:
+    evdir = os.environ.get('VERIF_EVIDENCE_DIR') or os.path.join(VERIF, 'evidence')
+    os.makedirs(evdir, exist_ok=True)
+    with open(os.path.join(evdir, '%s.json' % pid), 'w') as f:
+        json.dump(ev, f, indent=1, sort_keys=True, default=str)
+    # a copy per tier, so that a quick run does not erase what the last thorough run covered
+    os.makedirs(os.path.join(evdir, 'by-tier'), exist_ok=True)
+    with open(os.path.join(evdir, 'by-tier', '%s.%s.json' % (pid, tier)), 'w') as f:
         json.dump(ev, f, indent=1, sort_keys=True, default=str)
 
 
